@@ -58,7 +58,8 @@ def _write_fits(regions, filename, header=None, overwrite=False):
         If True, overwrite the output file if it exists. Raises an
         `OSError` if False and the output file exists. Default is False.
     """
-    if os.path.lexists(filename) and not overwrite:
+    # astropy.io.fits expands a leading "~", so the same path is tested
+    if os.path.lexists(os.path.expanduser(filename)) and not overwrite:
         raise OSError(f'{filename} already exists')
 
     output = _serialize_fits(regions)
